@@ -15,6 +15,7 @@ import (
 	"encoding/json"
 	"fmt"
 	"net/url"
+	"os"
 	"sort"
 	"strconv"
 	"strings"
@@ -52,6 +53,15 @@ func c20Exhaustive(x *xctx, name string, scenario func(*xctx) *violation) *viola
 	bound, maxRuns := 1, 2000
 	if x.tier == "thorough" {
 		bound, maxRuns = 2, 60000
+	}
+	if name == "webmix" {
+		// a schedule of two web requests costs three web sessions (the mix and
+		// one reference session per request): one preemption, and a cap that
+		// covers that space (about 7600 schedules) completely
+		bound, maxRuns = 1, 9000
+	}
+	if s := os.Getenv("VERIF_ENUM_MAX"); s != "" {
+		maxRuns, _ = strconv.Atoi(s)
 	}
 	v, runs, complete := exploreBounded(x, base, kinds, bound, maxRuns, func() *violation { return scenario(x) })
 	x.stats["enumerated_schedules"] += int64(runs)
@@ -91,11 +101,16 @@ func runC20(x *xctx) *violation {
 		enumPct = 8
 	}
 	if x.t.Bool(simrt.KCfg, enumPct) {
-		switch x.t.Choose(simrt.KCfg, 3) {
+		switch x.t.Choose(simrt.KCfg, 4) {
 		case 0:
 			return c20Exhaustive(x, "tempfiles", c20TempFiles)
 		case 1:
 			return c20Exhaustive(x, "options", c20Options)
+		case 2:
+			if x.tier != "thorough" {
+				return c20Exhaustive(x, "options", c20Options)
+			}
+			return c20Exhaustive(x, "webmix", c20WebMix)
 		default:
 			return c20Exhaustive(x, "tools", c20Tools)
 		}
